@@ -170,7 +170,13 @@ class CxS(Cx):
         rng = self.range_of(e["i"], env) if e["i"].get("k") in ("Struct", "Call") else None
         if rng is not None and isinstance(base, list):
             lo, hi = rng
-            return base[(lo or 0):(len(base) if hi is None else hi)]
+            lo_, hi_ = (lo or 0), (len(base) if hi is None else hi)
+            if not (0 <= lo_ <= hi_ <= len(base)):
+                raise CxPanic("range %s..%s out of bounds (len %d)" % (lo_, hi_, len(base)))
+            if "mut" in (e.get("ty") or "") or "M" in (e.get("adj") or "") or any(isinstance(x, Cell) for x in base[lo_:hi_]):
+                # a mutable sub-slice is a window onto the same elements, not a copy
+                return [x if isinstance(x, (Cell, list, dict)) else Cell(base, i_) for i_, x in zip(range(lo_, hi_), base[lo_:hi_])]
+            return base[lo_:hi_]
         idx = dderef(self.ev(e["i"], env))
         if isinstance(base, list) and isinstance(idx, int):
             if not 0 <= idx < len(base):
@@ -201,6 +207,8 @@ class CxS(Cx):
         if e.get("def") and e["op"] in ("Eq", "Ne") and not self._prim(e["l"].get("ty")):
             # derived PartialEq on aggregates: structural comparison
             l, r = dderef(self.ev(e["l"], env)), dderef(self.ev(e["r"], env))
+            if isinstance(l, str) and isinstance(r, str):
+                return (l == r) if e["op"] == "Eq" else (l != r)
             if isinstance(l, (dict, list, tuple)) or isinstance(r, (dict, list, tuple)):
                 eq = self.struct_eq(l, r)
                 return eq if e["op"] == "Eq" else not eq
@@ -300,15 +308,29 @@ class CxS(Cx):
                     return False
             return True
         if k == "PTupleStruct":
-            raise CxUnknown("tuple-struct pattern")
+            if not isinstance(v, dict) or "__variant" not in v:
+                raise CxUnknown("tuple-struct pattern against %s" % type(v).__name__)
+            want = (pat.get("def") or pat.get("ctor_of") or "").rsplit("::", 1)[-1]
+            if v["__variant"].rsplit("::", 1)[-1] != want:
+                return False
+            for i_, sub in enumerate(pat.get("pats", [])):
+                if str(i_) not in v:
+                    if sub.get("k") == "PWild":
+                        continue
+                    raise CxUnknown("tuple-struct field %d missing" % i_)
+                if not self.pmatch(sub, v[str(i_)], env):
+                    return False
+            return True
         if k == "PPath":
             if isinstance(v, dict):
-                return v.get("__variant") == (pat.get("def") or pat.get("ctor_of"))
+                return (v.get("__variant") or "").rsplit("::", 1)[-1] == (pat.get("def") or pat.get("ctor_of") or "").rsplit("::", 1)[-1]
             c = self.const_of(pat.get("def"))
             return self.truth("Eq", v, c)
         if k == "PLit":
             if pat.get("e") is not None:
                 return self.truth("Eq", v, self.ev(pat["e"], env))
+            if pat.get("lk") in ("Str", "Char"):
+                return isinstance(v, str) and v == str(pat.get("v"))
             if pat.get("lk") in ("Int", "Float", "Bool"):
                 lv = self.e_Lit(dict(pat, k="Lit"), env)
                 if pat.get("neg"):
@@ -424,6 +446,12 @@ class CxS(Cx):
             return dderef(self.ev(e["args"][0], env))
         if d.endswith("Vec::<T>::with_capacity") or d.endswith("Vec::<T>::new"):
             return []
+        if e.get("dk") == "Ctor" or fnode.get("dk") == "Ctor":
+            # a tuple-struct / enum-variant constructor: Ok(x), Some(x), Err(e), Wrapper(a, b)
+            v = {"__adt": d.rsplit("::", 1)[0], "__variant": d}
+            for i_, a_ in enumerate(e["args"]):
+                v[str(i_)] = dderef(self.ev(a_, env))
+            return v
         return super().e_Call(e, env)
 
     def e_MethodCall(self, e, env):
@@ -448,7 +476,7 @@ class CxS(Cx):
             if nm in ("collect", "into_iter", "iter", "copied", "cloned", "to_vec", "into_vec"):
                 return [dderef(x) if not isinstance(x, tuple) else x for x in rv] if nm in ("collect", "copied", "cloned", "to_vec", "into_vec") else rv
             if nm == "iter_mut":
-                return [Cell(rv, i) for i in range(len(rv))]
+                return [x if isinstance(x, (Cell, FieldRef)) else Cell(rv, i) for i, x in enumerate(rv)]
             if nm == "zip" and len(args) == 1:
                 o = dderef(self.ev(args[0], env))
                 if isinstance(o, list):
